@@ -212,42 +212,39 @@ func (e *Env) Close() {
 }
 
 // Session plays the client bytes (then half-closes) against a real session and returns every
-// byte the server sent.
+// byte the server sent. The connection is an in-memory pair (see bufconn.go).
 func (e *Env) Session(stream []byte) ([]byte, error) {
-	ln, err := net.Listen("tcp4", "127.0.0.1:0")
-	if err != nil {
-		return nil, err
-	}
-	defer ln.Close()
+	client, server := NewBufConnPair()
 	done := make(chan struct{})
 	go func() {
 		defer close(done)
-		conn, err := ln.Accept()
-		if err != nil {
-			return
-		}
-		e.Server.VerifServe(conn)
+		e.Server.VerifServe(server)
 	}()
-	c, err := net.Dial("tcp4", ln.Addr().String())
-	if err != nil {
-		return nil, err
-	}
-	defer c.Close()
 	go func() {
-		c.Write(stream)
-		c.(*net.TCPConn).CloseWrite()
+		client.Write(stream)
+		client.CloseWrite()
 	}()
-	c.SetReadDeadline(time.Now().Add(60 * time.Second))
-	out, rerr := io.ReadAll(c)
+	type res struct {
+		out []byte
+		err error
+	}
+	rc := make(chan res, 1)
+	go func() {
+		out, err := io.ReadAll(client)
+		rc <- res{out, err}
+	}()
 	select {
 	case <-done:
-	case <-time.After(60 * time.Second):
-		return out, fmt.Errorf("session did not end")
+	case <-time.After(120 * time.Second):
+		return nil, fmt.Errorf("session did not end")
 	}
-	if rerr != nil {
-		return out, rerr
+	select {
+	case r := <-rc:
+		client.Close()
+		return r.out, r.err
+	case <-time.After(30 * time.Second):
+		return nil, fmt.Errorf("reply stream did not end")
 	}
-	return out, nil
 }
 
 // ReplyTokens turns the server's output into "250-" / "250" style tokens (the greeting is dropped).
